@@ -8,7 +8,7 @@
 From Coq Require Import String ZArith List Bool Lia Arith.
 Import ListNotations.
 Set Warnings "-abstract-large-number".
-From SqfVerif Require Import Gen.DiagCodes Gen.Consts VM.VmDefs VM.VmExec VM.SchedDefs VM.SchedOps VM.SchedBase VM.SchedIter VM.SchedEquiv VM.C12Defs VM.C12Proofs.
+From SqfVerif Require Import Gen.DiagCodes Gen.Consts VM.VmDefs VM.VmExec VM.SchedDefs VM.SchedOps VM.SchedBase VM.SchedIter VM.SchedEquiv VM.C12Defs VM.C12Proofs VM.C12FrameOps VM.C12Frame VM.C12Commute.
 Local Open Scope list_scope.
 
 (* the instrumented scheduler (switches off) is the shared one *)
@@ -173,6 +173,107 @@ Theorem C12_other_scripts_untouched_partial : forall b1 b2 r i x r' v c0 j c,
   exists c', nth_error (r_ctxs r') j = Some c' /\ (c' = c \/ c' = set_terminate c true).
 Proof. exact other_scripts_untouched. Qed.
 Print Assumptions C12_other_scripts_untouched_partial.
+
+(* ------------------------------------------------------------------ independent turns commute *)
+(* FULL STATEMENT (isolation clause of C12): two scheduled scripts that touch disjoint state can have their turns swapped
+   without changing either script's trace or the final machine.
+   PROVED (C12_independent_turns_commute_partial): for the scheduler turn visit_ctx of the model, scripts i <> j, from a machine
+   r, with the independence predicate spelled out as
+     solo_turn .. r i Ri Wi xi ri vi : the turn of i taken ALONE from r returns (xi, ri, vi), where
+        visit_ok b1 Ri Wi r i = true  (executable: it runs the turn and checks every instruction it executes) - globals are
+           read only at keys of Ri and assigned only at keys of Wi (key = namespace, lower-cased name; GETVARIABLE, ASSIGNTO,
+           getVariable, setVariable, isNil "name"), and no instruction is spawn, terminate or scriptDone;
+        quiet r ri       - no exit request, no error state left, no script id handed out;
+        nss_effect Wi r ri - the namespaces changed only by new values for EXISTING variables of Wi;
+     the same for j, and independent Ri Wi Rj Wj = true: Wj is disjoint from Ri and Wi, Wi from Rj;
+     r_tick r = 0 (no virtual time passes inside the turns) and the log of r is empty (the log is write-only:
+     C12_log_is_write_only, so this is no restriction);
+   then i after j does exactly what i does alone (same result, same visit record: instructions executed, restarts) and j after
+   i does what j does alone, and the two final machines are equal in every field except r_active (the script that ran last)
+   and the log, which holds i's lines and j's lines in the one or the other order (shared_state m1 = shared_state m2).
+   MISSING for the full statement: (1) turns that CREATE a global (the model's namespaces are association lists, the position
+   of a new entry depends on the order of creation - the final machines are then equal only up to the order of entries, which
+   is not proved); (2) turns that spawn (the children's position in the scheduler's list and their ids depend on the order:
+   refuted as stated: C12_spawning_turns_commute_refuted); (3) a clock that advances during the turns (wake-up times of sleeping scripts
+   then depend on the order); (4) the lift from two turns to a whole pass (needs the composition of frame transformers and the
+   bookkeeping of erased contexts). *)
+Theorem C12_independent_turns_commute_partial : forall b1 b2 r i j Ri Wi Rj Wj xi ri vi xj rj vj,
+  i <> j -> r_out r = [] -> r_tick r = 0%Z ->
+  solo_turn b1 b2 r i Ri Wi xi ri vi -> solo_turn b1 b2 r j Rj Wj xj rj vj ->
+  independent Ri Wi Rj Wj = true ->
+  exists m1 m2,
+    visit_ctx b1 b2 rj i = Ok (xi, m1, vi) /\
+    visit_ctx b1 b2 ri j = Ok (xj, m2, vj) /\
+    shared_state m1 = shared_state m2 /\
+    r_out m1 = r_out ri ++ r_out rj /\ r_out m2 = r_out rj ++ r_out ri.
+Proof. exact independent_turns_commute. Qed.
+Print Assumptions C12_independent_turns_commute_partial.
+
+(* the log is write-only: a turn from a machine whose log already holds `old` does what it does from the empty log, with
+   `old` underneath (tr_log old appends at the old end of the log) *)
+Theorem C12_log_is_write_only : forall b1 b2 R W r i old,
+  i < length (r_ctxs r) -> visit_ok b1 R W r i = true ->
+  visit_ctx b1 b2 (app (tr_log old) r) i = map_v (app (tr_log old)) (visit_ctx b1 b2 r i).
+Proof. exact log_is_write_only. Qed.
+Print Assumptions C12_log_is_write_only.
+
+(* ... so the commutation holds from a machine with any log (the solo turns are taken from the machine with its log emptied):
+   both orders exist, each script does what it does alone, the final machines agree up to r_active and the order of the two
+   scripts' log lines on top of the old log *)
+Theorem C12_independent_turns_commute_any_log_partial : forall b1 b2 r i j Ri Wi Rj Wj xi ri vi xj rj vj,
+  i <> j -> r_tick r = 0%Z ->
+  solo_turn b1 b2 (set_out r []) i Ri Wi xi ri vi -> solo_turn b1 b2 (set_out r []) j Rj Wj xj rj vj ->
+  independent Ri Wi Rj Wj = true ->
+  exists ri' rj' m1 m2,
+    visit_ctx b1 b2 r i = Ok (xi, ri', vi) /\ visit_ctx b1 b2 r j = Ok (xj, rj', vj) /\
+    visit_ctx b1 b2 rj' i = Ok (xi, m1, vi) /\ visit_ctx b1 b2 ri' j = Ok (xj, m2, vj) /\
+    shared_state m1 = shared_state m2 /\
+    r_out m1 = r_out ri ++ r_out rj ++ r_out r /\ r_out m2 = r_out rj ++ r_out ri ++ r_out r.
+Proof. exact independent_turns_commute_any_log. Qed.
+Print Assumptions C12_independent_turns_commute_any_log_partial.
+
+(* the restriction "no spawn" is necessary: two scripts that each spawn a child - the children's places in the scheduler's
+   list follow the order of the parents' turns, so the final machines differ (as in runtime.cpp: spawn appends to m_contexts;
+   the children's turns in the next pass come in that order) *)
+Theorem C12_spawning_turns_commute_refuted :
+  exists m1 m2, two_turns sp_machine 0 1 = Some m1 /\ two_turns sp_machine 1 0 = Some m2 /\
+                shared_state m1 <> shared_state m2.
+Proof. exact spawning_turns_commute_refuted. Qed.
+Print Assumptions C12_spawning_turns_commute_refuted.
+
+(* the frame property behind it: a change of the machine that the turn of script i does not look at - another script's
+   context, log lines at the old end of the log, globals outside its footprints (tr_ok) - commutes with the whole turn *)
+Theorem C12_frame_turn : forall T i R W b1 b2 r,
+  tr_ok T i R W -> i < length (r_ctxs r) -> visit_ok b1 R W r i = true ->
+  visit_ctx b1 b2 (app T r) i = map_v (app T) (visit_ctx b1 b2 r i).
+Proof. exact app_visit_ctx. Qed.
+Print Assumptions C12_frame_turn.
+
+(* ... in particular a turn without spawn / terminate / scriptDone leaves every other script EXACTLY as it is *)
+Theorem C12_turn_leaves_others : forall b1 b2 R W r i x ri v k ck,
+  visit_ctx b1 b2 r i = Ok (x, ri, v) -> i < length (r_ctxs r) -> visit_ok b1 R W r i = true ->
+  k <> i -> nth_error (r_ctxs r) k = Some ck -> nth_error (r_ctxs ri) k = Some ck.
+Proof. exact turn_leaves_others. Qed.
+Print Assumptions C12_turn_leaves_others.
+
+(* non-vacuity: two spawned scripts `ga = ga + 1; diag_log ga` and `gb = gb + 2; diag_log gb` on a machine where both globals
+   exist satisfy every hypothesis (ex_solo_a, ex_solo_b, ex_independent_turns), both log and both change the namespaces *)
+Example ex_commute :
+  exists m1 m2,
+    visit_ctx false false (snd (fst (ex_turn 1))) 0 = Ok (fst (fst (ex_turn 0)), m1, snd (ex_turn 0)) /\
+    visit_ctx false false (snd (fst (ex_turn 0))) 1 = Ok (fst (fst (ex_turn 1)), m2, snd (ex_turn 1)) /\
+    shared_state m1 = shared_state m2 /\
+    r_out m1 = r_out (snd (fst (ex_turn 0))) ++ r_out (snd (fst (ex_turn 1))) /\
+    r_out m2 = r_out (snd (fst (ex_turn 1))) ++ r_out (snd (fst (ex_turn 0))).
+Proof.
+  apply (independent_turns_commute false false ex_machine 0 1 ex_Ka ex_Ka ex_Kb ex_Kb);
+    [discriminate | reflexivity | reflexivity | exact ex_solo_a | exact ex_solo_b | reflexivity].
+Qed.
+Example ex_hypotheses_hold :
+  independent ex_Ka ex_Ka ex_Kb ex_Kb = true /\ r_out ex_machine = [] /\ r_tick ex_machine = 0%Z /\
+  r_out (snd (fst (ex_turn 0))) <> [] /\ r_out (snd (fst (ex_turn 1))) <> [] /\
+  r_nss (snd (fst (ex_turn 0))) <> r_nss ex_machine /\ r_nss (snd (fst (ex_turn 1))) <> r_nss ex_machine.
+Proof. exact ex_independent_turns. Qed.
 
 (* ------------------------------------------------------------------ non-vacuity *)
 (* three spawned scripts of 2, 5 and 3 statements under a slice of 4 instructions: the passes of the model *)
